@@ -723,10 +723,21 @@ class _Merger(object):
                     'Unmatched keyword parameters: {0}'.format(
                     ' '.join(str(arg) for arg in non_defaulted)))
 
+    @staticmethod
+    def _same_value(left, right):
+        # objects whose == raises or gives something that has no truth value
+        # (numpy arrays, pandas.NA) are not known to be equal
+        if left is right:
+            return True
+        try:
+            return bool(left == right)
+        except Exception:
+            return False
+
     def _concile_meta(self, left, right):
         default = left.empty
         if left.default is not left.empty and right.default is not right.empty:
-            if left.default is right.default or left.default == right.default:
+            if self._same_value(left.default, right.default):
                 default = left.default
             else:
                 # The defaults are different. Short of using an "It's complicated"
@@ -737,7 +748,7 @@ class _Merger(object):
         annotation = left.empty
         upgraded_annotation = EmptyAnnotation
         if left.annotation is not left.empty and right.annotation is not right.empty:
-            if left.annotation == right.annotation:
+            if self._same_value(left.annotation, right.annotation):
                 annotation = left.annotation
                 upgraded_annotation = left.upgraded_annotation
         elif left.annotation is not left.empty:
